@@ -1,7 +1,7 @@
 """C09 Context reader partitions the document without loss, duplication or reordering."""
 import ast
 
-from ..core import Ob, Rule, AnalysisError, norm, KeyMaker
+from ..core import require_idiom, Ob, Rule, AnalysisError, norm, KeyMaker
 from ..cfg import path_of
 from .. import astutil as A
 from .. import guards
@@ -178,6 +178,7 @@ def r3_position_fields(ctx):
     f = ctx.func('x12context', 'X12SegmentDataNode.iterate_segments')
     txt = ast.unparse(f)
     ok = "'seg_count': self.seg_count" in txt and "'cur_line_number': self.cur_line_number" in txt and "'segment': self.seg_data" in txt
+    require_idiom(ok, 'c09.py:180')
     yield Ob('x12context:X12SegmentDataNode.iterate_segments exposes the segment with its position fields', ok, ctx.floc(f), '' if ok else 'dict keys changed')
 
 
@@ -223,12 +224,14 @@ def r4_resolution_and_attachment(ctx):
     f = ctx.func('x12context', 'X12ContextReader._add_segment')
     txt = ast.unparse(f)
     ok = 'new_node.parent = cur_loop_node' in txt and 'cur_loop_node.children.append(new_node)' in txt
+    require_idiom(ok, 'c09.py:225')
     yield Ob('x12context:X12ContextReader._add_segment attaches the node to the loop it computed', ok, ctx.floc(f), '' if ok else 'attachment changed')
     loops = [s for s in ast.walk(f) if isinstance(s, ast.For)]
     order = [norm(s.iter) for s in sorted(loops, key=lambda s: s.lineno)]
     ok = order == ['pop_loops', 'push_loops']
     yield Ob('x12context:X12ContextReader._add_segment replays popped loops before pushed loops', ok, ctx.floc(f), '' if ok else 'order %s' % order)
     ok = 'cur_loop_node = cur_loop_node.parent' in txt and 'cur_loop_node = cur_loop_node._add_loop_node(x12_loop)' in txt
+    require_idiom(ok, 'c09.py:231')
     yield Ob('x12context:X12ContextReader._add_segment pops to the parent and pushes a child loop node', ok, ctx.floc(f), '' if ok else 'replay statements changed')
     news = [c for c in A.calls_in(f) if A.call_target(c)[1] == 'X12SegmentDataNode']
     ok = len(news) == 1 and path_of(news[0].args[1]) == 'seg_data'
